@@ -46,6 +46,25 @@ CLAIMED["C02"] = ("exploration",
     "Trusted: MQTTCodec.tla Dec with the documented leniencies L1-L5; TLC; the recorder. Not exhaustive over all byte strings (generated + enumerated header space).",
     "DESIGN.md section 5 C02")
 
+BROKER_TECH = ("TLA+ specification Broker.tla (event-granular, one action per critical section of broker/client.go and MemoryBackend) bound to the real broker by trace "
+               "validation: scripted MQTT peers over harness-owned links, Backend wrapper, session-store hooks; every recorded trace checked by TLC (BrokerTrace.tla) incl. settlement")
+BROKER_NOTE = ("Trusted: TLC; the ordering argument of the harness (sends logged before, receives after, link queue + log entry atomic; store hooks under the store's lock); "
+               "scripted peers; rejected scenarios are re-driven slowly before being reported; attribution by tagged guards at the high-water mark. Bounded scenario families, not all histories.")
+BROKER_TEXT = {
+ "C06": "Every trace of the delivery family (subscribe/unsubscribe/publish histories, overlapping wildcard filters, all QoS pairs, step-wise and concurrent) must be a behaviour of Broker.tla: a message is queued for a session only if one of its filters matches at fan-out, once per session, forwarded intact with the QoS capped by a grant of a matching subscription; at settlement everything queued has been delivered.",
+ "C07": "Publisher handshakes with the connection cut before/after every single broker-side operation, late/never-acknowledging and failing backends: PUBACK/PUBCOMP only after the backend's ack was invoked, PUBREC only after the session recorded the message, a stored QoS 2 message handed on once (again only while in doubt), every PUBREL answered.",
+ "C08": "Persistent subscriber with cuts at every operation (also during resend): save before send, kept until acknowledged, PUBREC replaces by PUBREL, everything stored is resent after resume with DUP, session-present iff resumed, clean connect discards, offline queueing up to capacity; nothing queued with room is lost (settlement).",
+ "C11": "Retained set is a state variable of Broker.tla; every trace of retained/empty/non-retained publish histories with subscriptions over the bounded filter set must replay exactly the matching retained messages (flagged, QoS-capped) and clear the flag on live copies.",
+ "C12": "Termination cause x protocol state x will QoS/retain: the will is published exactly once, intact, iff Setup succeeded and no DISCONNECT was processed, and before Terminate.",
+ "C13": "Sequential and concurrent CONNECTs with one client id: Setup returns for the newcomer only after the previous holder entered Terminate (will published); session state (subscriptions, queues, stores) is the same model variable across the hand-over, so loss or duplication shows up in later deliveries.",
+ "C14": "Hostile packet sequences, token exhaustion, 64 KiB topics, backend failures at every call site and shutdown races: only a connection with a cause is closed, Terminate exactly once per successful Setup, closed signal for every ended connection, no goroutine left, witnesses keep receiving (settlement); a panic or hang of the driver process is a violation.",
+ "C15": "Per-session FIFO queues and the insertion-ordered outgoing store are model state: deliveries must come from the head of a queue, resend lists must be in original transmission order per kind.",
+ "C16": "Dequeue needs a token, at most `window` stored unacknowledged messages, tokens conserved; at settlement queues are drained unless the peer itself withholds acknowledgements for a full window.",
+ "C20": "Every non-CONNECT first packet, rejected authentication, all short packet sequences after CONNECT, pipelined requests: no backend call before an accepted CONNECT, CONNACK 5 and nothing more after failed authentication, offenders closed without reply, SUBACK/UNSUBACK/PINGRESP match their requests in order, at most one CONNACK.",
+}
+for _p, _t in BROKER_TEXT.items():
+    CLAIMED[_p] = ("model_checking", BROKER_TECH, _t, BROKER_NOTE, "DESIGN.md section 5 " + _p)
+
 PENDING_REASON = "check not built yet in this round (planned, see DESIGN.md section 5)"
 
 
